@@ -130,7 +130,7 @@ func (c *checker) safety(step string) error {
 		for _, hs := range adv {
 			for _, h := range hs {
 				if _, ok := stored[h]; !ok {
-					return fmt.Errorf("%s: replica %d advertised head %s in an outgoing message without storing it", step, rep.Idx, h)
+					return fmt.Errorf("%s: replica %d advertised change %s (as a head or carried in a head update) in an outgoing message without storing it", step, rep.Idx, h)
 				}
 			}
 		}
